@@ -40,7 +40,17 @@ static GEOSCoordSequence* parse_seq() {
     unsigned n = (unsigned) atoi(next().c_str());
     std::vector<double> buf((size_t) n * (2 + z + m) + 1);
     for (size_t i = 0; i < (size_t) n * (2 + z + m); i++) { uint64_t w = hex64(next()); memcpy(&buf[i], &w, 8); }
-    return GEOSCoordSeq_copyFromBuffer_r(h, buf.data(), n, z, m);
+    // two construction paths: interleaved buffer (even n) and per-ordinate arrays (odd n and n = 0; copyFromBuffer_r with
+    // size 0 hands a null pointer to memcpy, which UBSan reports in capi/geos_ts_c.cpp -- a C12 matter, avoided here)
+    if (n != 0 && n % 2 == 0) return GEOSCoordSeq_copyFromBuffer_r(h, buf.data(), n, z, m);
+    int st = 2 + z + m;
+    std::vector<double> X(n + 1), Y(n + 1), Zv(n + 1), Mv(n + 1);
+    for (unsigned i = 0; i < n; i++) {
+        X[i] = buf[(size_t) i * st]; Y[i] = buf[(size_t) i * st + 1];
+        if (z) Zv[i] = buf[(size_t) i * st + 2];
+        if (m) Mv[i] = buf[(size_t) i * st + 2 + z];
+    }
+    return GEOSCoordSeq_copyFromArrays_r(h, X.data(), Y.data(), z ? Zv.data() : nullptr, m ? Mv.data() : nullptr, n);
 }
 struct ConstructFail {};
 static GEOSGeometry* chk(GEOSGeometry* g) { if (!g) throw ConstructFail{}; return g; }
